@@ -9,6 +9,7 @@ let () =
     | "ENGINE" | "FAULT" | "TERM" -> Enginesuite.run
     | "TRANSPORT" -> Transportsuite.run
     | "EXPAND" -> Expandsuite.run
+    | "OPL" | "TYPECHK" -> Oplsuite.run
     | s -> failwith ("unknown suite " ^ s) in
   try
     while true do
